@@ -346,6 +346,38 @@ package storage
 //@   loop 1 invariant sorted: forall a, b :: 0 <= a && a < b && b < len(sc.lst) ==> sc.lst[a].End <= sc.lst[b].Start
 //@   loop 1 invariant ahead: next != nil ==> (forall j :: range_i <= j && j < len(sc.lst) ==> next.End <= sc.lst[j].Start)
 //
+// ---- reload at start: a segment comes back with the range it was persisted with ----
+// open() hands every segment directory to a callback (through loadSegments, which walks the directory); thin contract on
+// the callback, run from an arbitrary state on arbitrary (start, end): when the segment's metadata records an end time,
+// THAT is the end the segment is loaded with (an interval change between runs must not shrink or stretch it: points were
+// filed under the recorded range); otherwise the end derived from the directory layout is used.
+//@ ghost var lastParsedTime time.Time
+//@ func time.Parse
+//@   assumed standard library; the parsed instant is recorded in a ghost variable
+//@   modifies lastParsedTime
+//@   ensures  result1 == nil ==> result0 == lastParsedTime
+//@ func readSegmentMeta
+//@   assumed parses the metadata file (JSON or legacy)
+//@   pure
+//@ func loadSegments
+//@   assumed walks the segment directories in order and calls loadFn(start, end) for each
+//@   opt calls-back loadFn
+//@ func fs.FileSystem.Read
+//@   assumed file system
+//@   pure
+//@ func errors.Is
+//@   assumed standard library
+//@   pure
+//@ func sync.RWMutex.Lock
+//@   assumed lock (sequential reading: no effect on modelled state)
+//@ func sync.RWMutex.Unlock
+//@   assumed lock (sequential reading: no effect on modelled state)
+//@ func segmentController.open#persisted-end
+//@   mode int
+//@   opt only-stated
+//@   requires sc != nil
+//@   at-stmt "_, loadErr := sc.load(context.Background(), start, segmentEnd, sc.location)" requires the-recorded-end-is-the-end: ite(meta.EndTime != "", segmentEnd == lastParsedTime, segmentEnd == end)
+//
 //@ section C19
 // ---- file snapshots (backup source): a closed segment is copied as it lies and is never reopened; an open one is pinned ----
 //@ func segment.snapshotClosed
